@@ -89,6 +89,9 @@ def c06(msizes, auths, frameN, frameMsize, unpackN):
                              "bounds": f"one request of type {t} through Process() and the send step: fid/afid/newfid in {{valid file-or-dir fid with symbolic (type, opened, omode, diroffset), valid dir fid, absent, NOFID, auth fid}}, every scalar field full-width symbolic, names <= 1 byte, 0..2 walk names, implementation outcome ok/error/no answer/partial walk, 0- or 40-byte error text, msize {m}, AuthOps={a}"})
     runs.append({"harness": "vxH06Frame", "args": [str(frameN), str(frameMsize)], "files": F, "reach": ["done"], "timeout_s": 2400,
                  "bounds": f"running server, msize {frameMsize}: every byte string of length 0..{frameN} arrives as one segment on one connection; bystander and later connections must still be served"})
+    for (t, n) in ((100, 19), (102, 19), (104, 23), (108, 9), (110, 20), (110, 17), (112, 12), (114, 22), (116, 23), (118, 25), (120, 11), (122, 11), (124, 11), (126, 13)):
+        runs.append({"harness": "vxH06Session", "args": [str(t), str(n), "64"], "files": F, "preempt": 0, "free_switches": -1, "reach": ["done"],
+                     "bounds": f"live session (Tversion, Tattach, Twalk, Topen done; AuthOps+FlushOp implementation answering ok/error): one frame of type {t} and {n} bytes whose tag and whole body are symbolic goes through receive loop, decoder, worker, implementation, reply path and sender; msize 64; deterministic schedule"})
     for dotu in ("false", "true"):
         runs.append({"harness": "vxH15Window", "args": [dotu, "4", "8", "true"], "files": ["api", "ref_wire", "kit_srv", "kit_fs", "c15_dirread"], "reach": ["arbitrary-offset"],
                      "bounds": f"Ufs directory Tread at an arbitrary 64-bit offset and 32-bit count on an arbitrary valid snapshot (<= 4 entries), dotu={dotu}"})
